@@ -117,6 +117,15 @@ class Detect(Obligation):
         # count as history)
         mod._readers[:] = reg0
         for p in hist:
+            if isinstance(p, tuple):
+                # ('register', k): registering reader k again, same name and
+                # class -- the set of registered readers does not change
+                rn, cls = base[p[1]]
+                mod.registerreader(rn, cls)
+                regs_ok = regs_ok and sorted(
+                    k for k, v in mod._readers) == sorted(
+                    k for k, v in reg0)
+                continue
             sel(p)
             regs_ok = regs_ok and list(mod._readers) == reg0
         after = sel(probe)
@@ -168,8 +177,9 @@ class Detect(Obligation):
             return bool(inputs.get('M_%s_%s' % (rn, base.replace('.', '_')),
                                    False))
         readers = make_readers(mfun)
-        hist = [POOL[int(frac_of(inputs.get('h%d' % i, 0)))]
-                for i in range(self.h)]
+        hist = getattr(self, '_hist', None) or [
+            POOL[int(frac_of(inputs.get('h%d' % i, 0)))]
+            for i in range(self.h)]
         probe = POOL[int(frac_of(inputs.get('probe', 0)))]
         saved = list(mod._readers)
         import importlib
@@ -200,6 +210,55 @@ class Detect(Obligation):
                 'violations': viol, 'history': hist, 'probe': probe}
 
 
+class ReRegister(Detect):
+    """registering a reader that is already registered (same name, same
+    class) leaves the selection for every probe as it was"""
+
+    def __init__(self, probe):
+        Detect.__init__(self, 1, probe)
+        self.name = 'detect-after-reregistration[probe=%s]' % probe
+        self.bounds = {'readers': len(READERS), 'paths': POOL,
+                       'history': 're-registration of any one reader'}
+
+    def sym(self, ctx, h):
+        sp = self.space()
+        mod = sp.twin('PseudoNetCDF._getreader')
+        M = {}
+
+        def mfun(rn, base):
+            key = 'M_%s_%s' % (rn, base.replace('.', '_'))
+            if key not in M:
+                M[key] = ctx.bool(key)
+            return M[key]
+        for rn in READERS:
+            for p in POOL:
+                mfun(rn, p)
+        readers = make_readers(mfun)
+        k = ctx.int('k', 0, len(READERS) - 1)
+        pidx = ctx.int('probe', 0, len(POOL) - 1)
+        ctx.assume(pidx.e == self.pin_probe, check=False)
+        hist = [('register', int(k))]
+        probe = POOL[int(pidx)]
+        import warnings
+        with warnings.catch_warnings():
+            warnings.simplefilter('ignore')
+            pristine, after, again, regs_ok = self._run(mod, readers, hist,
+                                                        probe)
+        h.observe('pristine', pristine)
+        h.observe('after', after)
+        h.claim('selection-independent-of-history',
+                z3.BoolVal(pristine == after))
+        h.claim('selection-repeatable', z3.BoolVal(after == again))
+        h.claim('registry-unchanged-by-opens', z3.BoolVal(regs_ok))
+
+    def real(self, inputs):
+        self._hist = [('register', int(frac_of(inputs.get('k', 0))))]
+        try:
+            return Detect.real(self, inputs)
+        finally:
+            self._hist = None
+
+
 def obligations(tier):
     obs = []
     n = len(POOL)
@@ -209,4 +268,6 @@ def obligations(tier):
             obs.append(Detect(2, p, f))
             if tier == 'thorough':
                 obs.append(Detect(3, p, f))
+    for p in range(n):
+        obs.append(ReRegister(p))
     return obs
